@@ -43,11 +43,14 @@ type Gen struct {
 	Kinds    int      // mask for non-leaf positions
 	Width    int      // struct fields / union branches
 	UnionWidth int    // union branches (defaults to Width)
+	UnionExtraLeaves int // leaf kinds additionally allowed for the branches of a union (e.g. KNullScalar)
+	UnionTailLeaves int // if non-zero: leaf mask of the third and later branches of a union (keeps wide unions affordable)
 	Nullable bool     // make Nullable symbolic (else false)
 	Required bool     // make Required symbolic (else true)
 	Defaults bool     // symbolic defaults on scalars
 	Constraints bool  // symbolic constraints on scalars
 	n        int
+	plain    bool // inside a union branch
 }
 
 func Default() *Gen {
@@ -142,6 +145,14 @@ func (g *Gen) Ref() ast.Type {
 // Enum builds an enum the way the three parsers do: member names are derived from
 // the member values (fmt.Sprintf("%v", value)).
 func (g *Gen) Enum() ast.Type {
+	if g.plain {
+		// inside a union: a lean enum (the union, not the enum, is the subject there)
+		if v.Choose(2) == 0 {
+			val := v.Str("memberval", "a", " b")
+			return g.decorate(ast.NewEnum([]ast.EnumValue{{Type: ast.String(), Name: val, Value: val}}))
+		}
+		return g.decorate(ast.NewEnum([]ast.EnumValue{{Type: ast.NewScalar(ast.KindInt64), Name: "0", Value: int64(0)}, {Type: ast.NewScalar(ast.KindInt64), Name: "1", Value: int64(1)}}))
+	}
 	n := 1 + v.Choose(2)
 	var vals []ast.EnumValue
 	if v.Choose(2) == 0 {
@@ -211,11 +222,22 @@ func (g *Gen) Type(depth int) ast.Type {
 		}
 		var br ast.Types
 		// branches are plain (no defaults / constraints of their own): keeps the number of shapes linear in the width
-		saveD, saveC := g.Defaults, g.Constraints
-		g.Defaults, g.Constraints = false, false
-		defer func() { g.Defaults, g.Constraints = saveD, saveC }()
+		saveD, saveC, saveP := g.Defaults, g.Constraints, g.plain
+		g.Defaults, g.Constraints, g.plain = false, false, true
+		defer func() { g.Defaults, g.Constraints, g.plain = saveD, saveC, saveP }()
 		for i := 0; i < n; i++ {
-			b := g.Type(depth - 1)
+			var b ast.Type
+			if i >= 2 && g.UnionTailLeaves != 0 {
+				saveL, saveK := g.Leaves, g.Kinds
+				g.Leaves, g.Kinds = g.UnionTailLeaves, g.UnionTailLeaves
+				b = g.Type(0)
+				g.Leaves, g.Kinds = saveL, saveK
+			} else {
+				saveL := g.Leaves
+				g.Leaves |= g.UnionExtraLeaves
+				b = g.Type(depth - 1)
+				g.Leaves = saveL
+			}
 			for _, prev := range br {
 				// a union listing the same branch twice (or the same object twice) is outside the grammar
 				v.Assume(!v.DeepEqual(prev, b))
